@@ -247,3 +247,17 @@ pub fn verif_reslice_mut<'a>(s: &'a mut [u8], lo: usize) -> (r: &'a mut [u8])
 pub trait BmSource { spec fn bm_src(&self) -> Seq<u8>; }
 impl BmSource for Bytes { open spec fn bm_src(&self) -> Seq<u8> { self@ } }
 impl BmSource for &[u8] { open spec fn bm_src(&self) -> Seq<u8> { self@ } }
+
+/// R25b: `v[lo..hi]` as a mutable slice of a Vec<u8> (IndexMut<Range..> for Vec is outside Verus)
+pub trait VRangeMut {
+    spec fn vr_view(&self) -> Seq<u8>;
+    fn v_range_mut(&mut self, lo: usize, hi: usize) -> (r: &mut [u8])
+        requires lo <= hi <= old(self).vr_view().len()
+        ensures r@ == old(self).vr_view().subrange(lo as int, hi as int),
+            final(self).vr_view() == old(self).vr_view().take(lo as int) + final(r)@ + old(self).vr_view().skip(hi as int), final(r)@.len() == r@.len();
+}
+impl VRangeMut for Vec<u8> {
+    open spec fn vr_view(&self) -> Seq<u8> { self@ }
+    #[verifier::external_body]
+    fn v_range_mut(&mut self, lo: usize, hi: usize) -> (r: &mut [u8]) { &mut self[lo..hi] }
+}
